@@ -173,6 +173,12 @@ LEMMAS['SUM/nonneg'] = dict(
     hyps=['n >= 0', 'forall(j, 0, n, f[j] >= 0)'],
     induct=('m', '0', 'n', 'Sum(j, m, f[j]) >= 0'))
 
+# ---- every term of a sum of non-negative terms is at most the sum
+LEMMAS['SUM/term-le'] = dict(
+    vars={'f': ('list', 'int'), 'n': 'int'},
+    hyps=['n >= 0', 'forall(j, 0, n, f[j] >= 0)'],
+    induct=('m', '0', 'n', 'forall(q, 0, m, f[q] <= Sum(j, m, f[j]))'))
+
 # ---- a prefix of a sum of non-negative terms is at most the whole sum
 LEMMAS['SUM/prefix-le'] = dict(
     vars={'f': ('list', 'int'), 'k': 'int', 'n': 'int'},
@@ -358,3 +364,100 @@ LEMMAS['C02/rank-sums-compose'] = dict(
     hyps=['sizes_ok(S.model)', 'pairs_ok(S.model)',
           ('ensures', 'model:Model.set_rank_lists', {'self': 'S.model'}, None, ['sum-over-each-list-is-the-sum-over-the-pairs-with-that-rank-for-every-weight'])],
     goals=[('requires', 'solver:Solver.solve', {'self': 'S'}, None, ['rank-list-sums-for-every-weight'])])
+
+
+# ---- C05 bridge: for one acceptable pair p = m.pairs[i][c] of a valid 0/1 valuation, the alpha/beta/gamma system of p is solvable
+#      iff p does not block the matching M = {q : nu(q.lp_var) = 1}, with "blocks" written in PAIR SPACE exactly as in the property
+#      statement (loads = sums over all pairs of that project / lecturer; "worse assignee" = some assigned pair of that lecturer /
+#      project ranked strictly worse by the lecturer; "already supervises" = an assigned pair of the same student with that lecturer).
+#      Ingredients: the lecturer lists' sum identity for two weights (nu, and nu restricted to p's project), their element sets, the
+#      list read rule, C05/no-blocking-iff and C05/alpha-beta-gamma over the list of p's lecturer.
+#      (kk, jj are p's lecturer and project index, introduced through quantifiers so that the sums below are the very terms of the
+#      list builders' postconditions.)
+_B = {
+ 'p': ([], 'm.pairs[i][c]'), 'row': ([], 'm.pairs[i]'), 'k': ([], 'm.pairs[i][c].lecturer_index'), 'j': ([], 'm.pairs[i][c].project_index'),
+ 'LL': ([], 'm.lecturer_lists[m.pairs[i][c].lecturer_index]'), 'n': ([], 'len(m.lecturer_lists[m.pairs[i][c].lecturer_index])'),
+ 'd': ([], 'm.lec_upper_quotas[m.pairs[i][c].lecturer_index]'), 'cq': ([], 'm.proj_upper_quotas[m.pairs[i][c].project_index]'),
+ 'lkcond': (['x', 'y'], 'x.rank_lecturer <= y.rank_lecturer and x.studentID != y.studentID'),
+ # list-space quantities, in the form stability_constraints uses them
+ 'lksum': ([], 'Sum(q, n(), ite(lkcond(LL()[q], p()), nu(LL()[q].lp_var), 0))'),
+ 'pjsum': ([], 'Sum(q, n(), ite(lkcond(LL()[q], p()) and LL()[q].projectID == p().projectID, nu(LL()[q].lp_var), 0))'),
+ 'A': ([], 'Sum(q, len(row()), ite(row()[q].rank_student <= p().rank_student, nu(row()[q].lp_var), 0))'),
+ 'AT': ([], 'lam(q, len(row()), ite(row()[q].rank_student <= p().rank_student, nu(row()[q].lp_var), 0))'),
+ 'loadL_list': ([], 'varsum(LL())'),
+ 'loadP_list': ([], 'Sum(q, n(), ite(LL()[q].projectID == K0(), nu(LL()[q].lp_var), 0))'),
+ # pair-space quantities of the property statement
+ 'on': (['r'], 'nu(r.lp_var) == 1'),
+ 'loadL_nu': (['kk'], 'Sum(i2, len(m.pairs), Sum(c2, len(m.pairs[i2]), ite(m.pairs[i2][c2].lecturer_index == kk, nu(m.pairs[i2][c2].lp_var), 0)))'),
+ 'loadP_nu': (['jj'], 'Sum(i2, len(m.pairs), Sum(c2, len(m.pairs[i2]), ite(m.pairs[i2][c2].project_index == jj, nu(m.pairs[i2][c2].lp_var), 0)))'),
+ 'loadPK_nu': (['kk'], 'Sum(i2, len(m.pairs), Sum(c2, len(m.pairs[i2]), ite(m.pairs[i2][c2].lecturer_index == kk, ite(m.pairs[i2][c2].projectID == K0(), nu(m.pairs[i2][c2].lp_var), 0), 0)))'),
+ 'own': ([], 'exists(c2, 0, len(row()), on(row()[c2]) and row()[c2].lecturer_index == k())'),
+ 'worseL': ([], 'exists(i2, 0, len(m.pairs), exists(c2, 0, len(m.pairs[i2]), on(m.pairs[i2][c2]) and m.pairs[i2][c2].lecturer_index == k() and m.pairs[i2][c2].rank_lecturer > p().rank_lecturer))'),
+ 'worseP': ([], 'exists(i2, 0, len(m.pairs), exists(c2, 0, len(m.pairs[i2]), on(m.pairs[i2][c2]) and m.pairs[i2][c2].project_index == j() and m.pairs[i2][c2].rank_lecturer > p().rank_lecturer))'),
+ 'blocks_nu': (['kk', 'jj'], 'A() == 0 and ((loadP_nu(jj) < cq() and loadL_nu(kk) < d()) or (loadP_nu(jj) < cq() and loadL_nu(kk) >= d() and (own() or worseL()))'
+                             ' or (loadP_nu(jj) >= cq() and worseP()))'),
+ 'solvable': ([], 'exists(al, 0, 2, exists(be, 0, 2, (0 - d()) * al + lksum() >= 0 and (0 - cq()) * be + pjsum() >= 0 and (1 - A()) - al - be <= 0))'),
+ 'at_p': (['kk', 'jj'], 'kk == k() and jj == j()'),
+ # the three 0/1 arrays C05/no-blocking-iff is instantiated with (over the list of p's lecturer) and its internal sums
+ 'XX': ([], 'var_terms(LL(), n())'), 'CN': ([], 'lam(q, n(), ite(lkcond(LL()[q], p()), 1, 0))'), 'PR': ([], 'lam(q, n(), ite(LL()[q].projectID == K0(), 1, 0))'),
+ 'Lk_l': ([], 'Sum(q, n(), ite(CN()[q] == 1, XX()[q], 0))'), 'Pj_l': ([], 'Sum(q, n(), ite(CN()[q] == 1 and PR()[q] == 1, XX()[q], 0))'), 'loadP_l': ([], 'Sum(q, n(), ite(PR()[q] == 1, XX()[q], 0))'),
+ 'blocks_list': ([], 'A() == 0 and ((loadP_l() < cq() and loadL_list() < d()) or (loadP_l() < cq() and loadL_list() >= d() and exists(q, 0, n(), XX()[q] == 1 and CN()[q] != 1))'
+                     ' or (loadP_l() >= cq() and exists(q, 0, n(), XX()[q] == 1 and PR()[q] == 1 and CN()[q] != 1)))'),
+ # list-space existentials of C05/no-blocking-iff, written over the list of p's lecturer
+ 'snp_list': ([], 'exists(q, 0, n(), nu(LL()[q].lp_var) == 1 and not lkcond(LL()[q], p()))'),
+ 'snpj_list': ([], 'exists(q, 0, n(), nu(LL()[q].lp_var) == 1 and LL()[q].projectID == K0() and not lkcond(LL()[q], p()))'),
+}
+NUW2 = {'W': (['x'], 'ite(x.projectID == K0(), nu(x.lp_var), 0)')}          # nu restricted to the project whose number is K0()
+_SUMCL = ['sum-over-each-list-is-the-sum-over-the-pairs-with-that-index-for-every-weight']
+LEMMAS['C05/stable-iff-constraints'] = dict(
+    vars={'m': ('obj', 'Model'), 'i': 'int', 'c': 'int'}, defs=_B, theory=['listsets'],
+    hyps=['sizes_ok(m)', 'pairs_ok(m)', 'two_sided(m)', 'has_vars(m.pairs)', 'len(m.lecturer_lists) == m.num_lecturers',
+          '0 <= i and i < len(m.pairs) and 0 <= c and c < len(m.pairs[i])', 'K0() == m.pairs[i][c].projectID',
+          ('project-lecturers-in-range', 'len(m.proj_lecturers) == m.num_projects'),
+          ('valuation-is-binary', 'pairs_binary(m)'), ('rows-are-partial-assignments', 'rows_partial(m)'),
+          ('capacities-non-negative', 'd() >= 0 and cq() >= 0'),
+          ('capacities-respected', 'forall(kk, 0, m.num_lecturers, forall(jj, 0, m.num_projects, implies(at_p(kk, jj), loadL_nu(kk) <= d() and loadP_nu(jj) <= cq())))'),
+          ('ensures', 'model:Model.set_lecturer_lists', {'self': 'm'}, None, ['one-list-per-lecturer', 'lecturer-list-holds-exactly-the-pairs-of-that-lecturer']),
+          # the element set of a list: its entries, and nothing else (definition of elems; LISTSET)
+          ('entries-are-elements', 'forall(q, 0, n(), ref(LL()[q]) in elems(LL()))'), ('elements-are-entries', 'forall(r, implies(ref(r) in elems(LL()), exists(q, 0, n(), LL()[q] == ref(r))))'),
+          ('a-student-ranks-a-project-once', 'forall(a, 0, len(row()), forall(b, 0, len(row()), implies(row()[a].projectID == row()[b].projectID, a == b)))'),
+          ('ensures', 'model:Model.set_lecturer_lists', {'self': 'm'}, NUW, _SUMCL),
+          ('ensures', 'model:Model.set_lecturer_lists', {'self': 'm'}, NUW2, _SUMCL)],
+    uses=[# (lecturer kk and project K0)  <=>  project index jj, for the pairs of the instance: inner sums agree, then the outer ones
+          ('SUM/ext', {'f': 'lam(c2, len(m.pairs[i2]), ite(m.pairs[i2][c2].lecturer_index == kk, ite(m.pairs[i2][c2].projectID == K0(), nu(m.pairs[i2][c2].lp_var), 0), 0))',
+                       'g': 'lam(c2, len(m.pairs[i2]), ite(m.pairs[i2][c2].project_index == jj, nu(m.pairs[i2][c2].lp_var), 0))', 'n': 'len(m.pairs[i2])'}, 'forall:kk,jj,i2'),
+          ('SUM/ext', {'f': 'lam(i2, len(m.pairs), Sum(c2, len(m.pairs[i2]), ite(m.pairs[i2][c2].lecturer_index == kk, ite(m.pairs[i2][c2].projectID == K0(), nu(m.pairs[i2][c2].lp_var), 0), 0)))',
+                       'g': 'lam(i2, len(m.pairs), Sum(c2, len(m.pairs[i2]), ite(m.pairs[i2][c2].project_index == jj, nu(m.pairs[i2][c2].lp_var), 0)))', 'n': 'len(m.pairs)'}, 'forall:kk,jj'),
+          # A is 0 or 1: a filtered part of a row sum that is at most 1
+          ('SUM/le', {'f': 'lam(q, len(row()), ite(row()[q].rank_student <= p().rank_student, nu(row()[q].lp_var), 0))', 'g': 'var_terms(row(), len(row()))', 'n': 'len(row())'}, 'if-applicable'),
+          ('SUM/nonneg', {'f': 'lam(q, len(row()), ite(row()[q].rank_student <= p().rank_student, nu(row()[q].lp_var), 0))', 'n': 'len(row())'}, 'if-applicable'),
+          ('SUM/term-le', {'f': 'lam(q, len(row()), ite(row()[q].rank_student <= p().rank_student, nu(row()[q].lp_var), 0))', 'n': 'len(row())'}, 'if-applicable'),
+          # the internal sums of C05/no-blocking-iff are the sums of the constraint builder
+          ('SUM/ext', {'f': 'lam(q, n(), ite(CN()[q] == 1, XX()[q], 0))', 'g': 'lam(q, n(), ite(lkcond(LL()[q], p()), nu(LL()[q].lp_var), 0))', 'n': 'n()'}, 'if-applicable'),
+          ('SUM/ext', {'f': 'lam(q, n(), ite(CN()[q] == 1 and PR()[q] == 1, XX()[q], 0))', 'g': 'lam(q, n(), ite(lkcond(LL()[q], p()) and LL()[q].projectID == p().projectID, nu(LL()[q].lp_var), 0))', 'n': 'n()'}, 'if-applicable'),
+          ('SUM/ext', {'f': 'lam(q, n(), ite(PR()[q] == 1, XX()[q], 0))', 'g': 'lam(q, n(), ite(LL()[q].projectID == K0(), nu(LL()[q].lp_var), 0))', 'n': 'n()'}, 'if-applicable'),
+          ('SUM/nonneg', {'f': 'lam(q, n(), ite(lkcond(LL()[q], p()), nu(LL()[q].lp_var), 0))', 'n': 'n()'}, 'if-applicable'),
+          ('SUM/nonneg', {'f': 'lam(q, n(), ite(lkcond(LL()[q], p()) and LL()[q].projectID == p().projectID, nu(LL()[q].lp_var), 0))', 'n': 'n()'}, 'if-applicable'),
+          # the two logical cores (their hypotheses are established by the goals below)
+          ('C05/no-blocking-iff', {'x': 'XX()', 'cnd': 'CN()', 'prj': 'PR()', 'n': 'n()', 'd': 'd()', 'c': 'cq()', 'A': 'A()'}, 'if-applicable'),
+          ('C05/alpha-beta-gamma', {'Lk': 'lksum()', 'Pj': 'pjsum()', 'd': 'd()', 'c': 'cq()', 'A': 'A()'}, 'if-applicable')],
+    goals=[('lecturer-load-over-the-list-is-the-load-over-all-pairs', 'forall(kk, 0, m.num_lecturers, implies(kk == k(), loadL_list() == loadL_nu(kk)))', 'then-assume'),
+           ('project-load-over-the-lecturers-list-is-the-load-over-all-pairs', 'forall(kk, 0, m.num_lecturers, forall(jj, 0, m.num_projects, implies(at_p(kk, jj), loadP_list() == loadP_nu(jj))))', 'then-assume'),
+           ('someone-not-preferred-on-the-list-iff-own-or-worse-assignee-of-the-lecturer', 'snp_list() == (own() or worseL())', 'then-assume'),
+           ('someone-not-preferred-at-the-project-iff-worse-assignee-of-the-project-or-the-student-itself', 'snpj_list() == (worseP() or nu(p().lp_var) == 1)', 'then-assume'),
+           ('A-is-0-or-1', 'A() == 0 or A() == 1', 'then-assume'),
+           ('the-term-of-p-itself', 'AT()[c] == nu(p().lp_var) and AT()[c] <= A()', 'then-assume'),
+           ('an-assigned-p-makes-A-one', 'implies(nu(p().lp_var) == 1, A() == 1)', 'then-assume'),
+           ('internal-sums-are-the-builders-sums', 'Lk_l() == lksum() and Pj_l() == pjsum() and loadP_l() == loadP_list() and lksum() >= 0 and pjsum() >= 0', 'then-assume'),
+           ('the-three-arrays-entry-by-entry', 'forall(q, 0, n(), XX()[q] == nu(LL()[q].lp_var) and CN()[q] == ite(lkcond(LL()[q], p()), 1, 0) and PR()[q] == ite(LL()[q].projectID == K0(), 1, 0))', 'then-assume'),
+           ('list-entries-are-binary', 'forall(q, 0, n(), XX()[q] == 0 or XX()[q] == 1)', 'then-assume'),
+           ('array-form-of-someone-not-preferred', 'exists(q, 0, n(), XX()[q] == 1 and CN()[q] != 1) == snp_list()', 'then-assume'),
+           ('array-form-of-someone-at-the-project-not-preferred', 'exists(q, 0, n(), XX()[q] == 1 and PR()[q] == 1 and CN()[q] != 1) == snpj_list()', 'then-assume'),
+           ('list-space-blocking-is-pair-space-blocking', 'forall(kk, 0, m.num_lecturers, forall(jj, 0, m.num_projects, implies(at_p(kk, jj), blocks_list() == blocks_nu(kk, jj))))', 'then-assume'),
+           ('capacities-respected-in-list-space', 'loadL_list() <= d() and loadP_l() <= cq()', 'then-assume'),
+           ('not-blocking-in-list-space-iff-one-of-three', '(not blocks_list()) == (A() >= 1 or Lk_l() >= d() or Pj_l() >= cq())', 'then-assume'),
+           ('system-solvable-iff-one-of-three', 'solvable() == (A() >= 1 or lksum() >= d() or pjsum() >= cq())', 'then-assume'),
+           # THE STATEMENT, in two halves that share the middle term: the alpha / beta / gamma constraints of p admit 0/1 values for alpha and beta
+           # iff (s_i holds a pair at rank <= rank(p), or Lk >= d_k, or Pj >= c_j)  [goal above]  iff p does not block  [this goal]
+           ('one-of-three-iff-p-does-not-block', 'forall(kk, 0, m.num_lecturers, forall(jj, 0, m.num_projects, implies(at_p(kk, jj), (A() >= 1 or lksum() >= d() or pjsum() >= cq()) == (not blocks_nu(kk, jj)))))', '',
+            ['list-space-blocking-is-pair-space-blocking', 'not-blocking-in-list-space-iff-one-of-three', 'system-solvable-iff-one-of-three', 'internal-sums-are-the-builders-sums'])])
